@@ -233,7 +233,9 @@ impl Pattern {
         match self {
             Pattern::Static(s) => {
                 let size = s.len();
-                if bytes.len() >= size && *s == unsafe {bytes.get_unchecked(..size)} {
+                if bytes.len() >= size && *s == unsafe {bytes.get_unchecked(..size)}
+                /* whole segments only: `/users` is not matched by `/users2` */
+                && (bytes.len() == size || *unsafe {bytes.get_unchecked(size)} == b'/') {
                     Some(unsafe {bytes.get_unchecked(size..)})
                 } else {
                     None
